@@ -23,6 +23,7 @@ ASSUMPTIONS = ["REST+STOR/APPE on an existing file overwrites in place from the 
                "REST beyond the end pads with NUL bytes when something is written",
                "REST on a missing file is an error (451) on every back end"]
 REQUIRED_MONITORS = ["upload_model", "download_model", "second_session", "reply_after_close"]
+ANCHOR_FUNCTIONS = ['server.py:Server.stor.<locals>.stor_worker', 'server.py:Server.retr.<locals>.retr_worker', 'client.py:Client.get_stream', 'common.py:AsyncStreamIterator.__anext__']
 EXHAUSTIVE = {"quick": False, "thorough": False}
 
 CONTENT = ["pos", "all256", "crlf", "iac", "random", "zeros"]
